@@ -49,6 +49,23 @@ theorem C19_pause_notifies (m : ModId) (s : St) :
   simp [this]
 
 
+/-- **One notification per occurrence and subscriber**: a notification without recipient (loop started / stopped, module
+started / stopped, tick) is one walk over the module table; exactly the RUNNING or PAUSED modules holding a subscription that
+matches the system topic get exactly one copy, system-flagged and payload-less, tagged with that subscription; every other
+module is untouched (`C02_publish_exactly_the_subscribed` for the message `tell_system_pubsub_msg` builds). -/
+theorem C19_one_notification_per_subscriber (s : St) (topic : String) (k : ModId) (md : Mod) (hm : s.mods[k]? = some md) :
+    (k ∈ s.tableOrder → ((md.state ≠ .running ∧ md.state ≠ .paused) ∨ fetchSub s md topic = none) →
+      (tellSystem s none none topic).mods[k]? = some md) ∧
+    (k ∈ s.tableOrder → (md.state = .running ∨ md.state = .paused) → ∀ sub, fetchSub s md topic = some sub → ∀ q, md.pipe = some q →
+      q.length + md.pipeSkip < pipeCap →
+      ∃ copy md', (tellSystem s none none topic).mods[k]? = some md' ∧ md'.pipe = some (q ++ [copy]) ∧ copy.payload = 0 ∧
+        copy.sys = true ∧ copy.topic = some topic ∧ copy.sub = some sub ∧ md'.state = md.state) := by
+  have h := Lm.Props.C02.C02_publish_exactly_the_subscribed s
+    { sender := none, topic := some topic, payload := 0, sys := true, holder := none, sub := none, pill := false } topic rfl k md hm
+  refine ⟨h.2.1, fun hk he sub hf q hp hroom => ?_⟩
+  obtain ⟨c, md', h1, h2, h3, _, h5, h6, h7, h8⟩ := h.2.2 hk he sub hf q hp hroom
+  exact ⟨c, md', h1, h2, h3, h8, h5, h6, h7⟩
+
 /-- tie A: the guard prefixes of the entry points this property is about, re-extracted from the source on every run,
 are the ones the model transcribes (`Lm.Inst.CoreTie`) -/
 theorem C19_guards_in_source :
